@@ -118,9 +118,9 @@ try:
                     res["status"] = "reported"
                     res["by"] = [k[len("violated "):][:110] for k in new[:2]]
                     break
-            if res["status"] == "unreported" and args.tests and (rel.startswith("internal/") or rel.startswith("quicvarint/")):
+            if res["status"] == "unreported" and args.tests and (rel.startswith("internal/") or rel.startswith("quicvarint/") or rel.startswith("http3/")):
                 env = dict(os.environ, GOFLAGS="-mod=mod", GOPROXY="off")
-                t = subprocess.run(["go", "test", "-mod=mod", "-vet=off", "-count=1", "-timeout", "120s", "./" + os.path.dirname(rel) + "/"], cwd=repo, env=env, capture_output=True, text=True)
+                t = subprocess.run(["go", "test", "-mod=mod", "-vet=off", "-count=1", "-timeout", "240s", "./" + os.path.dirname(rel) + "/"], cwd=repo, env=env, capture_output=True, text=True)
                 if t.returncode != 0:
                     res["status"] = "unreported, killed by the package's unit tests"
         finally:
